@@ -915,7 +915,11 @@ func (e *Exec) checkNonNil(f *frame, a *Addr, g *string, in ssa.Instruction) {
 	if isAllocRef(a.Ref) {
 		return
 	}
-	e.checkCond(f, "nil", not(eq(a.Ref, "null")), g, in)
+	kind := "nil"
+	if strings.HasPrefix(a.Ref, "r_") {
+		kind = "nilresult" // the pointer is the result of a call made by this function
+	}
+	e.checkCond(f, kind, not(eq(a.Ref, "null")), g, in)
 }
 
 func (e *Exec) checkCond(f *frame, kind, cond string, g *string, in ssa.Instruction) {
@@ -923,6 +927,11 @@ func (e *Exec) checkCond(f *frame, kind, cond string, g *string, in ssa.Instruct
 		return
 	}
 	if cond == "true" {
+		return
+	}
+	if ks := e.topSpec.NoPanicKinds; ks != nil && !ks[kind] {
+		// a kind of run-time check this contract does not ask for: execution simply continues where it passes
+		*g = e.nameBool("g", and(*g, cond))
 		return
 	}
 	e.callOrd["nopanic."+kind]++
@@ -993,10 +1002,12 @@ func (e *Exec) heapInv(a *Addr, h *Heap) {
 	if e.heapInvDone == nil {
 		e.heapInvDone = map[string]bool{}
 	}
-	if e.heapInvDone[a.Ref] {
+	// (assumed again whenever the component read from has changed since: the invariant holds in every state)
+	key := a.Ref + "|" + a.Comp + "|" + e.hget(h, a.Comp)
+	if e.heapInvDone[key] {
 		return
 	}
-	e.heapInvDone[a.Ref] = true
+	e.heapInvDone[key] = true
 	for _, c := range fs.Clauses {
 		sf := e.eng.ld.specFunc(fs, c)
 		t := e.evalSpec(sf, []Val{{T: a.Ref, Typ: sf.Params[0].Type()}}, h, nil)
